@@ -1463,3 +1463,137 @@ package ring
 //@   loop 0 invariant 0 <= i && i <= r.level+1
 //@   loop 0 invariant forall(k, 0, i, a[k] == ModexpMontgomery(old(a[k]), r.SubRings[k].Modulus - 2, r.SubRings[k].Modulus, r.SubRings[k].MRedConstant, r.SubRings[k].BRedConstant))
 //@   loop 0 invariant forall(k, i, r.level+1, a[k] == old(a[k]))
+
+// ---- NTT entry functions (property C01): the layer loops (the four *CoreLazy functions) are
+// ---- ASSUMED with their frame and their documented lazy output range (the butterflies they are
+// ---- made of are proved: outputs below 6q forward, below 2q inverse); the wrappers that bring the
+// ---- result to the documented final range are verified against the kernel contracts ----
+//@ func nttCoreLazy
+//@   property C01
+//@   trusted layer loops not verified: assumed frame and lazy output range [0, 6q-2]
+//@   requires 0 <= N && len(p1) >= N && len(p2) >= N && len(roots) >= N
+//@   assigns p2[0:N]
+//@   ensures forall(k, 0, N, p2[k] < 6*Q)
+
+//@ func inttCoreLazy
+//@   property C01
+//@   trusted layer loops not verified: assumed frame and lazy output range [0, 2q-1]
+//@   requires 0 <= N && len(p1) >= N && len(p2) >= N && len(roots) >= N
+//@   assigns p2[0:N]
+//@   ensures forall(k, 0, N, p2[k] < 2*Q)
+
+//@ func nttCoreConjugateInvariantLazy
+//@   property C01
+//@   trusted layer loops not verified: assumed frame and lazy output range [0, 6q-2]
+//@   requires 0 <= N && len(p1) >= N && len(p2) >= N && len(roots) >= N
+//@   assigns p2[0:N]
+//@   ensures forall(k, 0, N, p2[k] < 6*Q)
+
+//@ func inttCoreConjugateInvariantLazy
+//@   property C01
+//@   trusted layer loops not verified: assumed frame and lazy output range [0, 2q-1]
+//@   requires 0 <= N && len(p1) >= N && len(p2) >= N && len(roots) >= N
+//@   assigns p2[0:N]
+//@   ensures forall(k, 0, N, p2[k] < 2*Q)
+
+//@ func NTTStandard
+//@   property C01
+//@   requires 8 <= N && N % 8 == 0 && len(p1) >= N && len(p2) == N && len(roots) >= N
+//@   requires bredpre(Q, BRedConstant[0], BRedConstant[1]) && Q < 1<<61
+//@   requires sameOrDisjoint(p1[0:N], p2) && disjoint(roots, p2)
+//@   assigns p2
+//@   ensures forall(k, 0, N, p2[k] < Q)
+
+//@ func NTTStandardLazy
+//@   property C01
+//@   requires 8 <= N && len(p1) >= N && len(p2) >= N && len(roots) >= N
+//@   assigns p2[0:N]
+//@   ensures forall(k, 0, N, p2[k] < 6*Q)
+
+//@ func INTTStandard
+//@   property C01
+//@   requires 8 <= N && N % 8 == 0 && len(p1) >= N && len(p2) == N && len(roots) >= N
+//@   requires mredpre(Q, MRedConstant) && Q < 1<<61 && NInv < Q
+//@   requires sameOrDisjoint(p1[0:N], p2) && disjoint(roots, p2)
+//@   assigns p2
+//@   ensures forall(k, 0, N, p2[k] < Q)
+//@   loop 0 invariant 0 <= i && i <= N
+//@   loop 0 invariant forall(k, 0, i, p2[k] < Q)
+//@   loop 0 invariant forall(k, i, N, p2[k] < 2*Q)
+//@   loop 0 assigns p2[0:N]
+
+//@ func INTTStandardLazy
+//@   property C01
+//@   requires 8 <= N && N % 8 == 0 && len(p1) >= N && len(p2) == N && len(roots) >= N
+//@   requires mredpre(Q, MRedConstant) && Q < 1<<61 && NInv < Q
+//@   requires sameOrDisjoint(p1[0:N], p2) && disjoint(roots, p2)
+//@   assigns p2
+//@   ensures forall(k, 0, N, p2[k] < 2*Q)
+//@   loop 0 invariant 0 <= i && i <= N
+//@   loop 0 invariant forall(k, 0, N, p2[k] < 2*Q)
+//@   loop 0 assigns p2[0:N]
+
+//@ func NTTConjugateInvariant
+//@   property C01
+//@   requires 8 <= N && N % 8 == 0 && len(p1) >= N && len(p2) == N && len(roots) >= N
+//@   requires bredpre(Q, BRedConstant[0], BRedConstant[1]) && Q < 1<<61
+//@   requires sameOrDisjoint(p1[0:N], p2) && disjoint(roots, p2)
+//@   assigns p2
+//@   ensures forall(k, 0, N, p2[k] < Q)
+
+//@ func NTTConjugateInvariantLazy
+//@   property C01
+//@   requires 8 <= N && len(p1) >= N && len(p2) >= N && len(roots) >= N
+//@   assigns p2[0:N]
+//@   ensures forall(k, 0, N, p2[k] < 6*Q)
+
+//@ func INTTConjugateInvariant
+//@   property C01
+//@   requires 8 <= N && N % 8 == 0 && len(p1) >= N && len(p2) == N && len(roots) >= N
+//@   requires mredpre(Q, MRedConstant) && Q < 1<<61 && NInv < Q
+//@   requires sameOrDisjoint(p1[0:N], p2) && disjoint(roots, p2)
+//@   assigns p2
+//@   ensures forall(k, 0, N, p2[k] < Q)
+
+//@ func INTTConjugateInvariantLazy
+//@   property C01
+//@   requires 8 <= N && N % 8 == 0 && len(p1) >= N && len(p2) == N && len(roots) >= N
+//@   requires mredpre(Q, MRedConstant) && Q < 1<<61 && NInv < Q
+//@   requires sameOrDisjoint(p1[0:N], p2) && disjoint(roots, p2)
+//@   assigns p2
+//@   ensures forall(k, 0, N, p2[k] < 2*Q)
+
+// the transformer methods delegate to the entry functions with the fields of their table (wraps: the
+// method satisfies the entry function's contract under that substitution, so a swapped argument fails)
+//@ func NumberTheoreticTransformerStandard.Forward
+//@   property C01
+//@   wraps NTTStandard(p1, p2, rntt.numberTheoreticTransformerBase.N, rntt.numberTheoreticTransformerBase.Modulus, rntt.numberTheoreticTransformerBase.MRedConstant, rntt.numberTheoreticTransformerBase.BRedConstant, rntt.numberTheoreticTransformerBase.NTTTable.RootsForward)
+
+//@ func NumberTheoreticTransformerStandard.ForwardLazy
+//@   property C01
+//@   wraps NTTStandardLazy(p1, p2, rntt.numberTheoreticTransformerBase.N, rntt.numberTheoreticTransformerBase.Modulus, rntt.numberTheoreticTransformerBase.MRedConstant, rntt.numberTheoreticTransformerBase.NTTTable.RootsForward)
+
+//@ func NumberTheoreticTransformerStandard.Backward
+//@   property C01
+//@   wraps INTTStandard(p1, p2, rntt.numberTheoreticTransformerBase.N, rntt.numberTheoreticTransformerBase.NTTTable.NInv, rntt.numberTheoreticTransformerBase.Modulus, rntt.numberTheoreticTransformerBase.MRedConstant, rntt.numberTheoreticTransformerBase.NTTTable.RootsBackward)
+
+//@ func NumberTheoreticTransformerStandard.BackwardLazy
+//@   property C01
+//@   wraps INTTStandardLazy(p1, p2, rntt.numberTheoreticTransformerBase.N, rntt.numberTheoreticTransformerBase.NTTTable.NInv, rntt.numberTheoreticTransformerBase.Modulus, rntt.numberTheoreticTransformerBase.MRedConstant, rntt.numberTheoreticTransformerBase.NTTTable.RootsBackward)
+
+//@ func NumberTheoreticTransformerConjugateInvariant.Forward
+//@   property C01
+//@   wraps NTTConjugateInvariant(p1, p2, rntt.numberTheoreticTransformerBase.N, rntt.numberTheoreticTransformerBase.Modulus, rntt.numberTheoreticTransformerBase.MRedConstant, rntt.numberTheoreticTransformerBase.BRedConstant, rntt.numberTheoreticTransformerBase.NTTTable.RootsForward)
+
+//@ func NumberTheoreticTransformerConjugateInvariant.ForwardLazy
+//@   property C01
+//@   wraps NTTConjugateInvariantLazy(p1, p2, rntt.numberTheoreticTransformerBase.N, rntt.numberTheoreticTransformerBase.Modulus, rntt.numberTheoreticTransformerBase.MRedConstant, rntt.numberTheoreticTransformerBase.NTTTable.RootsForward)
+
+//@ func NumberTheoreticTransformerConjugateInvariant.Backward
+//@   property C01
+//@   wraps INTTConjugateInvariant(p1, p2, rntt.numberTheoreticTransformerBase.N, rntt.numberTheoreticTransformerBase.NTTTable.NInv, rntt.numberTheoreticTransformerBase.Modulus, rntt.numberTheoreticTransformerBase.MRedConstant, rntt.numberTheoreticTransformerBase.NTTTable.RootsBackward)
+
+//@ func NumberTheoreticTransformerConjugateInvariant.BackwardLazy
+//@   property C01
+//@   wraps INTTConjugateInvariantLazy(p1, p2, rntt.numberTheoreticTransformerBase.N, rntt.numberTheoreticTransformerBase.NTTTable.NInv, rntt.numberTheoreticTransformerBase.Modulus, rntt.numberTheoreticTransformerBase.MRedConstant, rntt.numberTheoreticTransformerBase.NTTTable.RootsBackward)
+
